@@ -29,7 +29,7 @@ func init() { register(c18{}) }
 func (c18) ID() string { return "C18" }
 
 func (c18) Rule() string {
-	return "systematic (every shard enumerates, shared sharding): Complement and Transcribe on every byte value 0..255 alone and embedded, on the 256-byte sequence in ascending and two permuted orders; Match on all 32x32 single-letter cells (query letter x sequence letter, IUPAC alphabet acgturyswkmbdhvn in both cases) and every query letter against permutations of the whole alphabet; every ASCII byte outside the alphabet as a one-byte query (and in front of 'r') against sequences holding all 128 ASCII bytes; Match and Search on ALL sequences up to length Ls and ALL queries up to length Lq over the small-alphabet universes listed in c18Universes (plain bases, ambiguity codes, the k row, mixed case, a literal '-', and the regexp metacharacters . + * ? ( ) [ ] \\ | ^ $ { }); empty sequence/query combinations. seeded (per shard): random Complement/Transcribe inputs over all byte values with feature tables (BasicSequence and GenBank hosts), random Match/Search cases of length <= 120 (periodic, mixed-case, ambiguity-generalised queries cut from the sequence) and random cases over the combined 19-symbol alphabet. Oracle: IUPAC base-set table; Complement/Transcribe byte-by-byte from the complementary set, length, involution up to U, feature i keeps key/qualifiers and denotes the same parts on the other strand; Match judged against the statement directly (every reported segment has query length, lies inside, is not contradicted by any cell, list ascending and non-overlapping, every definitely matching window is reported or overlaps an earlier reported segment) and, when no don't-care cell (query n against a sequence byte outside the alphabet) is involved, equal to the leftmost non-overlapping scan; Search equal to the brute-force list of all case-folded occurrences, ascending. non-trivial: Complement/Transcribe input holds an IUPAC letter; a table cell always; other Match/Search cases when the oracle expects at least one segment; distinct: canonical case text."
+	return "systematic (every shard enumerates, shared sharding): Complement and Transcribe on every byte value 0..255 alone and embedded, on the 256-byte sequence in ascending and two permuted orders; Match on all 32x32 single-letter cells (query letter x sequence letter, IUPAC alphabet acgturyswkmbdhvn in both cases) and every query letter against permutations of the whole alphabet; every ASCII byte outside the alphabet as a one-byte query (and in front of 'r') against sequences holding all 128 ASCII bytes; Match and Search on ALL sequences up to length Ls and ALL queries up to length Lq over the small-alphabet universes listed in c18Universes (plain bases, ambiguity codes, the k row, mixed case, a literal '-', and the regexp metacharacters . + * ? ( ) [ ] \\ | ^ $ { }); empty sequence/query combinations. seeded (per shard): random Complement/Transcribe inputs over all byte values with feature tables (BasicSequence and GenBank hosts), random Match/Search cases of length <= 120 (periodic, mixed-case, ambiguity-generalised queries cut from the sequence) and random cases over the combined 19-symbol alphabet. Oracle: IUPAC base-set table; Complement/Transcribe byte-by-byte from the complementary set, length, involution up to U, feature i keeps key/qualifiers and denotes the same parts on the other strand; Match judged against the statement directly (every reported segment has query length, lies inside, is not contradicted by any cell, list ascending and non-overlapping, every definitely matching window is reported or overlaps an earlier reported segment) and, when no don't-care cell (query n against a sequence byte outside the alphabet) is involved, equal to the leftmost non-overlapping scan; Search equal to the brute-force list of all case-folded occurrences, ascending. non-trivial: Complement/Transcribe input holds an IUPAC letter; a table cell always; other Match/Search cases when the oracle expects at least one segment; distinct: canonical case text. Sequences spelled with u are searched with the t spelling of their own stretches of 6..15 letters (and the reverse); gts search with a query file is re-run with the cache on after the same command line whose query file held the same letters cut into records differently."
 }
 
 func (c18) RequiredBuckets(tier string) []string {
@@ -37,8 +37,8 @@ func (c18) RequiredBuckets(tier string) []string {
 		"complement:all-256", "transcribe:all-256", "complement:features", "complement:involution",
 		"match-table:cell", "match-table:row", "literal-bytes", "metachar-queries",
 		"match:multi", "match:overlap-suppressed", "match:ambiguity", "match:case-fold",
-		"search:overlapping", "search:case-fold", "search:hit", "search:no-hit", "empty-inputs",
-	}, "cli:search", "cli:search -e", "cli:search --no-complement", "cli:search RNA record", "cli:search stream", "cli:search query file", "cli:search several queries", "cli:search query longer than a record", "cli:search cache-on", "cli:search query starting with @")
+		"search:overlapping", "search:case-fold", "search:hit", "search:no-hit", "empty-inputs", "multi:long-query-in-the-other-spelling-of-t/u",
+	}, "cli:search", "cli:search -e", "cli:search --no-complement", "cli:search RNA record", "cli:search stream", "cli:search query file", "cli:search several queries", "cli:search query longer than a record", "cli:search cache-on", "cli:search cache-on after another query file", "cli:search query starting with @")
 }
 
 const (
@@ -1103,7 +1103,36 @@ func (m c18) Run(c *fw.Ctx) {
 	for it := 0; it < nMS; it++ {
 		c.NextOwn()
 		var seq, q []byte
-		if r.Intn(3) == 0 {
+		if rk := r.Intn(8); rk == 0 {
+			// an RNA-spelled sequence searched with the DNA spelling of one of
+			// its own stretches (and the other way round): t and u name the
+			// same base, however long the query.
+			from, to := byte('u'), byte('t')
+			al := "acgu"
+			if r.Intn(3) == 0 {
+				from, to, al = 't', 'u', "acgt"
+			}
+			L := 6 + r.Intn(80)
+			seq = make([]byte, L)
+			for i := range seq {
+				seq[i] = al[r.Intn(4)]
+				if r.Intn(12) == 0 {
+					seq[i] -= 32
+				}
+			}
+			n := 6 + r.Intn(10)
+			if n > L {
+				n = L
+			}
+			at := r.Intn(L - n + 1)
+			q = bytes.ToLower(seq[at : at+n])
+			for i := range q {
+				if q[i] == from {
+					q[i] = to
+				}
+			}
+			c.Bucket("multi:long-query-in-the-other-spelling-of-t/u")
+		} else if rk <= 2 {
 			// the combined small alphabet of the statement's examples.
 			seq = make([]byte, r.Intn(9))
 			for i := range seq {
